@@ -9,16 +9,26 @@ import OpdaProofs.QuadNoisyQtc
 import OpdaProofs.MaxOfN
 import OpdaProofs.QuadNoisyCurves
 import OpdaProofs.QuadNoisyReal
+import OpdaProofs.QuadNoisyQtcOdd
 /-!
 # C08 — parametric tuning curves are quantile and mean of the best of `n` draws
 
-Property theorems only (lemmas in `OpdaProofs/Quad{Law,Avg,Trap,Run,Tail,Stop,NoisyQtc}.lean`).
+Property theorems only (lemmas in `OpdaProofs/Quad{Law,Avg,Trap,Run,Tail,Stop,NoisyQtc,NoisyQtcOdd}.lean`).
 
 * noiseless class: the polymorphic model `Opda.Quad.{quantileTuningCurve, averageTuningCurve}` at `ℝ`
   (`logGamma = log ∘ Γ`); the driver evaluates the same constants at `Float` (`logGammaF`).
 * noisy class: `Opda.Noisy.{quantileTuningCurve, avgRunCapped}` (`OpdaModel/QuadNoisy.lean`) on top of the
   noisy cdf/ppf model and of the integration loop `Opda.TrapLoop` (`OpdaModel/QuadTrap.lean`) — the terms
   the driver runs at `Float`, and (for the negative result) the kernel runs at `Rat`.
+
+**The noisy quantile clause `|F(quantile_tuning_curve(n,q)) − level| ≤ 2e-5`** is a theorem in exact real arithmetic
+(`realFns`: real `Φ`, `φ`, `rpow`), for every real `n > 0` (so every `n ≥ 1`), every `q ∈ (0,1)` (the level is then strictly
+inside `(0,1)`: `noisy_level_inside`), both shapes, both directions and `minimize = None`:
+`noisy_qtc_hits_level_even` — even `c = 2k ≤ 100`, every `a ≤ b`, `o ≥ 0` other than the point mass (all three regimes);
+`noisy_qtc_hits_level_odd_partial` — series regime, shipped table, `c = 9` at every scale, `c = 5` with `o/(b−a) < 1/5`,
+`c = 3` with `o/(b−a) < 1/50` (the settings of `C07.cdf_ppf_odd_tolerance_partial`).  Still measured only: `c = 1`, `c = 7`,
+`c = 5` at scales `≥ 0.2`, `c = 3` at scales `≥ 0.02` in the series regime, `c > 100`, and IEEE rounding (the theorems are at `ℝ`).
+`noisy_qtc_accuracy` remains as the conditional statement over any ordered field.
 
 What is **not** a theorem, and why: the accuracy clause of the integrated average curve
 (`100·max(atol, 1e-6·scale)`).  `stop_rule_not_a_bound` exhibits a continuous CDF for which the loop stops at
@@ -72,6 +82,66 @@ theorem noisy_qtc_accuracy {α : Type} [Field α] [LinearOrder α] [IsStrictOrde
         + max 0 (max (Noisy.cdf F d (d.a - 6 * d.o) - Noisy.level F (mn.getD d.convex) q nn)
             (Noisy.level F (mn.getD d.convex) q nn - Noisy.cdf F d (d.b + 6 * d.o))) :=
   Noisy.qtc_accuracy hF d hab ho nn q mn hp h L hl0 hl1 hmono hlip
+
+/-- the noisy level at the real instance is the documented one (`rpow`), and lies strictly inside `(0,1)` for
+`q ∈ (0,1)` and every real `n > 0` -/
+theorem noisy_level_inside (T : List (ℕ × List (Noisy.Entry ℝ))) (ninf pinf : ℝ) (m : Bool) (q nn : ℝ)
+    (hq0 : 0 < q) (hq1 : q < 1) (hn : 0 < nn) :
+    Noisy.level (Noisy.realFns T ninf pinf) m q nn = (if m then 1 - (1 - q) ^ (1 / nn) else q ^ (1 / nn))
+      ∧ 0 < Noisy.level (Noisy.realFns T ninf pinf) m q nn ∧ Noisy.level (Noisy.realFns T ninf pinf) m q nn < 1 :=
+  ⟨Noisy.level_real T ninf pinf m q nn, Noisy.level_real_mem T ninf pinf m q nn hq0 hq1 hn⟩
+
+/-- **noisy, even `c = 2k`, `1 ≤ k ≤ 50`, unconditional, exact real arithmetic**: every `a ≤ b`, `o ≥ 0` other than the point
+mass (noiseless, series and normal regime), both shapes, `minimize ∈ {None, False, True}`, every real `n > 0`, every
+`q ∈ (0,1)`: `|cdf(quantile_tuning_curve(n, q, minimize)) − level| ≤ 2e-5`, `level = q^{1/n}` resp. `1 − (1−q)^{1/n}`
+(the bound obtained is C07's `1e-5`).  At `ℝ`; IEEE rounding is measured. -/
+theorem noisy_qtc_hits_level_even (T : List (ℕ × List (Noisy.Entry ℝ))) (ninf pinf : ℝ) (d : Noisy.Params ℝ) (k : ℕ)
+    (hk : 1 ≤ k) (hk50 : k ≤ 50) (hc : d.c = 2 * k) (hab : d.a ≤ d.b) (ho : 0 ≤ d.o)
+    (hp : Noisy.pointMass (Noisy.realFns T ninf pinf) d = false) (nn q : ℝ) (mn : Option Bool)
+    (hn : 0 < nn) (hq0 : 0 < q) (hq1 : q < 1) :
+    |Noisy.cdf (Noisy.realFns T ninf pinf) d (Noisy.quantileTuningCurve (Noisy.realFns T ninf pinf) d nn q mn)
+        - Noisy.level (Noisy.realFns T ninf pinf) (mn.getD d.convex) q nn| ≤ 2e-5 :=
+  Noisy.qtc_hits_level_even T ninf pinf d k hk hk50 hc hab ho hp nn q mn hn hq0 hq1
+
+/-- **noisy, odd `c`, where C07's proved bound reaches the tolerance** (series regime, the shipped table, exact real
+arithmetic): `c = 9` at every scale of the regime, `c = 5` with `o/(b−a) < 1/5`, `c = 3` with `o/(b−a) < 1/50`; both shapes,
+`minimize ∈ {None, False, True}`, every real `n > 0`, every `q ∈ (0,1)`:
+`|cdf(quantile_tuning_curve(n, q, minimize)) − level| ≤ 2e-5`.
+`_partial`: missing are `c = 1`, `c = 7`, `c = 5` at scales `≥ 0.2`, `c = 3` at scales `≥ 0.02` (C07's bound
+`2·1.02·max_error + …` exceeds even `2e-5` for `c = 1`, `c = 3`, `c = 5` there; for `c = 7` it is `1.6e-5` but is proved only
+as an explicit bound, `C07.cdf_ppf_odd_shipped_table_partial`), `c > 100`, and IEEE rounding — measured by `corr_C08`. -/
+theorem noisy_qtc_hits_level_odd_partial (ninf pinf : ℝ) (d : Noisy.Params ℝ) (hab : d.a ≤ d.b)
+    (hp : Noisy.pointMass (Noisy.realFns Noisy.tableR ninf pinf) d = false)
+    (h : Noisy.regime (Noisy.realFns Noisy.tableR ninf pinf) d = .nothing)
+    (hcs : d.c = 9 ∨ (d.c = 5 ∧ d.o / (d.b - d.a) < 1 / 5) ∨ (d.c = 3 ∧ d.o / (d.b - d.a) < 1 / 50))
+    (nn q : ℝ) (mn : Option Bool) (hn : 0 < nn) (hq0 : 0 < q) (hq1 : q < 1) :
+    |Noisy.cdf (Noisy.realFns Noisy.tableR ninf pinf) d
+          (Noisy.quantileTuningCurve (Noisy.realFns Noisy.tableR ninf pinf) d nn q mn)
+        - Noisy.level (Noisy.realFns Noisy.tableR ninf pinf) (mn.getD d.convex) q nn| ≤ 2e-5 :=
+  Noisy.qtc_hits_level_odd ninf pinf d hab hp h hcs nn q mn hn hq0 hq1
+
+/-- non-vacuity: `a=0, b=1, o=1/10`, either shape, `n = 5/2`, `q = 1/2`, minimising: `c = 4` and `c = 9` satisfy the
+hypotheses and the curves hit their levels to 2e-5 -/
+example (cv : Bool) :
+    |Noisy.cdf (Noisy.realFns [] 0 0) { a := 0, b := 1, c := 4, o := 1/10, convex := cv }
+          (Noisy.quantileTuningCurve (Noisy.realFns [] 0 0) { a := 0, b := 1, c := 4, o := 1/10, convex := cv }
+            (5/2) (1/2) (some true))
+        - Noisy.level (Noisy.realFns [] 0 0) true (1/2) (5/2)| ≤ 2e-5
+    ∧ |Noisy.cdf (Noisy.realFns Noisy.tableR 0 0) { a := 0, b := 1, c := 9, o := 1/10, convex := cv }
+          (Noisy.quantileTuningCurve (Noisy.realFns Noisy.tableR 0 0)
+            { a := 0, b := 1, c := 9, o := 1/10, convex := cv } (5/2) (1/2) (some true))
+        - Noisy.level (Noisy.realFns Noisy.tableR 0 0) true (1/2) (5/2)| ≤ 2e-5 := by
+  have hp : ∀ (T : List (ℕ × List (Noisy.Entry ℝ))) (c : ℕ),
+      Noisy.pointMass (Noisy.realFns T 0 0) { a := 0, b := 1, c := c, o := 1/10, convex := cv } = false := by
+    intro T c
+    rw [Bool.eq_false_iff, Ne, Noisy.pointMass_iff (Noisy.realFns_lawful T 0 0)]; norm_num
+  have hr : Noisy.regime (Noisy.realFns Noisy.tableR 0 0)
+      { a := 0, b := 1, c := 9, o := 1/10, convex := cv } = .nothing := by
+    rw [Noisy.regime_nothing_iff (Noisy.realFns_lawful _ 0 0)]; norm_num
+  exact ⟨noisy_qtc_hits_level_even [] 0 0 _ 2 (by norm_num) (by norm_num) rfl (by norm_num) (by norm_num) (hp _ 4)
+      (5/2) (1/2) (some true) (by norm_num) (by norm_num) (by norm_num),
+    noisy_qtc_hits_level_odd_partial 0 0 _ (by norm_num) (hp _ 9) hr (Or.inl rfl)
+      (5/2) (1/2) (some true) (by norm_num) (by norm_num) (by norm_num)⟩
 
 /-- for integer `n` the level is what it should be: `P[all n draws ≤ t] = F(t)^n` (discrete form, C04-T2') -/
 theorem best_of_n_cdf {N : ℕ} (y w : Fin N → ℝ) (t : ℝ) (n : ℕ) :
